@@ -117,7 +117,8 @@ def check_envelope(emd, x, which, method, pad, par, lpo, mpo, rec, sequence=Fals
         ref_err = e
     eo0 = {k: (dict(v) if isinstance(v, dict) else v) for k, v in eo.items()}
     try:
-        out = emd.sift.interp_envelope(_arg(xt), mode=which, interp_method=method, extrema_opts=eo, ret_extrema=True)
+        out = emd.sift.interp_envelope(_arg(xt), mode=which, interp_method=method, extrema_opts=eo,
+                                       ret_extrema=[True, 1, np.True_][N % 3])
     except Exception as e:
         if ref_err is not None or pad == 0:
             rec.cls('clean-exception(pad=0 or np.pad/scipy rejects)')
